@@ -6,6 +6,8 @@
    A script alternates environment events with `SSettle` = "let every caller run until it is
    parked or has returned, timers that are due fire".  The clock is explicit: `LTick w` = the
    stored deadline w passes, `SStaleAll` = the replaced deadlines of all stale timers pass.
+   A deadline setter broadcasts (deadlineSignal): after `set v; SSettle` EVERY parked caller has
+   been through RESET_TIMER again and follows the deadline stored now, whatever n is.
    `SMarkEarly` relabels the timeouts returned so far as "early" (they happened before the
    deadline in force passes in the script).                                                  *)
 From Coq Require Import List Bool Arith NArith.
@@ -22,7 +24,10 @@ Inductive scen :=
 | ScWake | ScWakeSeparate | ScWakeShort | ScClose | ScSockErr
 | ScMulti (k : nat)       (* n readers (any buffer sizes), ONE datagram carrying k messages (any lengths) *)
 | ScDlBefore | ScDlBeforeBoth | ScDlPastBefore
-| ScNoneThenSet | ScSetLater | ScSetEarlier | ScSetZeroSet | ScSetPast | ScCleared.
+| ScNoneThenSet | ScSetLater | ScSetEarlier | ScSetZeroSet | ScSetPast | ScCleared
+| ScSetDOther (far : bool).   (* the OTHER direction's deadline was set on its own and has passed; this
+                               direction has no deadline (far = false) or a distant one (far = true);
+                               SetDeadline (both directions) while the calls are parked *)
 
 Inductive oc := OBlocked | OData | OWritten | OAccepted | OTimeout | OTimeoutEarly | OClosed | OSockErr | OOther
             | OBlockedData.   (* a Read still parked at the end although data is readable *)
@@ -36,7 +41,7 @@ Let async := false.
 Let cap := 3.
 
 Definition internal_next (n : nat) (st : state) : list (label * state) :=
-  next async cap prog false (map LFire (seq 0 n)) st.
+  next async cap prog true false (map LFire (seq 0 n)) st.
 
 (* all states reachable by internal steps, then those in which nothing internal is enabled *)
 Definition settle (n : nat) (sts : list state) : list state :=
@@ -46,13 +51,13 @@ Definition settle (n : nat) (sts : list state) : list state :=
   end.
 
 Definition apply_env (l : label) (st : state) : list state :=
-  match env_step async cap prog l st with
+  match env_step async cap prog true l st with
   | [] => [st]                    (* not enabled: the event changes nothing *)
   | r => r
   end.
 
 Definition stale_all (n : nat) (st : state) : state :=
-  fold_left (fun s i => match env_step async cap prog (LTickStale i) s with s' :: _ => s' | [] => s end)
+  fold_left (fun s i => match env_step async cap prog true (LTickStale i) s with s' :: _ => s' | [] => s end)
             (seq 0 n) st.
 
 Definition mark_early (st : state) : state :=
@@ -133,6 +138,12 @@ Definition script (c : caller) (s : scen) (n : nat) : list sstep :=
   | ScSetZeroSet => [set DFuture; SSettle; set DNone; SSettle; set DFuture; SSettle; SMarkEarly; tick; SSettle]
   | ScSetPast => [set DFuture; SSettle; set DPast; SSettle]
   | ScCleared => [set DFuture; SSettle; set DNone; SSettle; SStaleAll; SSettle; SMarkEarly] ++ wake_steps c n
+  | ScSetDOther far =>
+      let other := match c with Reader => [SEnv (LSetWD DFuture); SEnv (LTick WD)]
+                              | Writer => [SEnv (LSetRD DFuture); SEnv (LTick RD)]
+                              | Accepter => [] end in
+      let both := match c with Accepter => LLSetD DFuture | _ => LSetD DFuture end in
+      other ++ (if far then [set DFuture] else []) ++ [SSettle; SEnv both; SSettle; SMarkEarly; tick; SSettle]
   end.
 
 Definition allowed (c : caller) (s : scen) (n : nat) : list (list nat) := run_script c n (script c s n).
